@@ -217,6 +217,24 @@ def make_generator(cfg):
     from gherkin.stream.id_generator import IdGenerator
     if cfg.get("genclass") == "duck":
         return DuckGenerator()
+    if cfg.get("genclass") == "own":
+        cls = _JOURNAL.get("own")
+        if cls is None:
+            class OwnStateIdGenerator(IdGenerator):
+                """A user subclass that keeps its OWN state and never calls the base class's counter."""
+
+                def __init__(self):
+                    super().__init__()
+                    self._own = 0
+
+                def get_next_id(self):
+                    v = str(self._own)
+                    self._own += 1
+                    env = seams.ENV
+                    return env.rec.draw(self, v, seams.cur_ctx()) if env is not None else v
+
+            cls = _JOURNAL["own"] = OwnStateIdGenerator
+        return cls()
     if cfg.get("genclass") != "journal":
         return IdGenerator()
     cls = _JOURNAL.get(IdGenerator)
